@@ -711,3 +711,32 @@ def string_encoding_defaults(model, run, rule: str) -> None:
                         if not ok:
                             run.fail(Finding(rule, fq, f"string_encoding={val!r}", f"{fq.split('sansldap.')[-1]} configures string_encoding={val!r}: the session's messages are not LDAPString (UTF-8)", model.loc(fi.module, x)))
     run.floor("string_encoding defaults", n, 4)
+
+
+def dispatch_entries_are_owned(model: Model, run, rule: str, consequence: str) -> int:
+    """Every entry of the protocolOp dispatch table belongs to the message class with that tag number: the key is the
+    `tag_number` of exactly one LDAPMessage class.  An entry under a number no class owns decodes an operation this library
+    does not implement *as* one that it does (a ModifyResponse read by the SearchResultDone decoder is, to the session, the
+    end of a search) instead of refusing it as an unknown protocolOp."""
+    from .report import Finding
+    ex = extracted(model)
+    owned = {}
+    for c in ex.msg_classes:
+        try:
+            owned.setdefault(ex.class_tag_number(c), []).append(c)
+        except AnalysisError:
+            continue
+    n = 0
+    def as_int(v):
+        return getattr(v, "value", v)
+    owned = {as_int(k): v for k, v in owned.items()}
+    for num, fi in sorted(((as_int(k), f) for k, f in ex.dispatch.items()), key=lambda kv: str(kv[0])):
+        n += 1
+        ok = num in owned and len(owned[num]) == 1
+        run.ob(rule, ok, {"protocolOp": num, "decoder": fi.name, "class": short(owned[num][0]) if ok else None})
+        if not ok:
+            run.fail(Finding(rule, f"{MSG}.PROTOCOL_PACKER", f"{num} -> {fi.name}",
+                             f"PROTOCOL_PACKER[{num}] hands protocolOp {num} to {fi.name}, but " +
+                             ("no message class has that tag number" if num not in owned else f"{len(owned[num])} classes share it") + f": {consequence}",
+                             model.loc(MSG, model.modules[MSG].globals_["PROTOCOL_PACKER"][0])))
+    return n
